@@ -445,7 +445,9 @@ func (r *PipelineRunner) HandleTaskChange(t *task.Task) {
 	// then we directly abort all other tasks of the job.
 	// NOTE: this is NOT the context.Canceled case from above (if a job is explicitly aborted), but only
 	// if one task failed, and we want to kill the other tasks.
-	if jt.Errored {
+	// (a task with allow_failure must never abort the job, also if it failed without an exit status, e.g. with a script that
+	// does not parse)
+	if jt.Errored && !jt.AllowFailure {
 		pipelineDef, found := r.defs.Pipelines[j.Pipeline]
 		if found && !pipelineDef.ContinueRunningTasksAfterFailure {
 			log.
